@@ -1307,6 +1307,9 @@ pub fn array_from(
     let _source_guard = interp.guard_value(&source);
     let _map_fn_guard = map_fn.as_ref().and_then(|m| interp.guard_value(m));
 
+    // Collected elements (mapped results, iterator values) must stay alive until the
+    // result array owns them.
+    let guard = interp.heap.create_guard();
     let mut elements = Vec::new();
 
     match source {
@@ -1337,6 +1340,9 @@ pub fn array_from(
                     } else {
                         elem
                     };
+                    if let JsValue::Object(o) = &mapped {
+                        guard.guard(o.cheap_clone());
+                    }
                     elements.push(mapped);
                 }
             } else {
@@ -1414,6 +1420,9 @@ pub fn array_from(
                                     } else {
                                         elem
                                     };
+                                    if let JsValue::Object(o) = &mapped {
+                                        guard.guard(o.cheap_clone());
+                                    }
                                     elements.push(mapped);
                                     i += 1;
                                 } else {
@@ -1446,13 +1455,15 @@ pub fn array_from(
                 } else {
                     elem
                 };
+                if let JsValue::Object(o) = &mapped {
+                    guard.guard(o.cheap_clone());
+                }
                 elements.push(mapped);
             }
         }
         _ => {}
     }
 
-    let guard = interp.heap.create_guard();
     let arr = interp.create_array_from(&guard, elements);
     Ok(Guarded::with_guard(JsValue::Object(arr), guard))
 }
